@@ -114,6 +114,10 @@ fn tcp_peer() -> (std::net::SocketAddr, mpsc::Receiver<Vec<u8>>) {
                         if f.h.notify != 1 && f.query != b"/__noreply" {
                             let _ = s.write_all(&reply_for(&f.h));
                         }
+                        if f.query == b"/__slow" {
+                            // class l: the peer stops reading for a while; what the client writes next meets full buffers
+                            std::thread::sleep(Duration::from_millis(80));
+                        }
                     }
                     match s.read(&mut tmp) {
                         Ok(0) | Err(_) => break,
@@ -142,6 +146,11 @@ fn ws_peer(rt: &tokio::runtime::Runtime) -> (std::net::SocketAddr, mpsc::Receive
                         if let WsMsg::Binary(b) = m {
                             let h = RawHeader::parse(&b);
                             let _ = tx.send(b.clone());
+                            if b[48.min(b.len())..].starts_with(b"/__slow") {
+                                if let Some(h) = &h { let _ = ws.send(WsMsg::Binary(reply_for(h))).await; }
+                                tokio::time::sleep(Duration::from_millis(80)).await;
+                                continue;
+                            }
                             if let Some(h) = h {
                                 if h.notify != 1 && !b[48.min(b.len())..].starts_with(b"/__noreply") {
                                     let _ = ws.send(WsMsg::Binary(reply_for(&h))).await;
@@ -226,25 +235,64 @@ macro_rules! run_api {
     }};
 }
 
+/// Second audit pass: runs of N identical requests (g), frames whose total size sits at the 8 KiB BufWriter capacity and its
+/// multiples (h), a peer that stops reading right before a multi-MiB frame (l).
+fn add_audit2_ops(r: &mut Rng, ops: &mut Vec<Op>, thorough: bool) {
+    let runs: &[usize] = if thorough { &[1, 2, 7, 8, 9, 16, 17, 64, 65, 256, 1000] } else { &[2, 8, 9, 17] };
+    for &n in runs {
+        let op = Op::Json { notify: r.chance(1, 2), path: "/run".to_string(), value: json!({"n": n}) };
+        let at = r.below(ops.len() as u64 + 1) as usize;
+        for _ in 0..n { ops.insert(at, op.clone()); }
+    }
+    let totals: &[usize] = if thorough { &[8191, 8192, 8193, 8240, 16383, 16384, 16385, 65535, 65536, 65537] } else { &[8191, 8192, 8193, 16384] };
+    for &t in totals {
+        let path = "/sized".to_string();
+        let at = r.below(ops.len() as u64 + 1) as usize;
+        ops.insert(at, Op::Formats { notify: r.chance(1, 3), path: path.clone(), qf: 1, body: Some(r.bytes(t - 48 - path.len())), bf: 0 });
+    }
+    for _ in 0..(if thorough { 3 } else { 1 }) {
+        let at = r.below(ops.len() as u64 + 1) as usize;
+        let big = r.bytes(if thorough { 4 << 20 } else { 2 << 20 });
+        ops.insert(at, Op::Formats { notify: false, path: "/big".to_string(), qf: 1, body: Some(big), bf: 0 });
+        ops.insert(at, Op::Json { notify: false, path: "/__slow".to_string(), value: Value::Null });
+    }
+}
+
 fn main() {
     let args = Args::parse();
     quiet_panics();
     let mut out = Out::new(&args.out);
     out.rule = "calls and notifies (custom format codes, JSON helpers, empty-body call_message, batches, every `_with_timeout` twin, typed JSON/BEVE helpers, registry helpers, forward_message of arbitrary consistent messages, calls the peer never answers followed by more calls on the same client) with paths incl. empty, escapes, non-ASCII, long; bodies 0..70 KB; issued through the real blocking Client, AsyncClient and WebSocketClient to a recording peer; the captured raw frame is compared with the builder frame for the id the client chose. Distinct by op line; non-trivial = every captured frame".into();
     out.config("mode checks");
-    let rt = tokio::runtime::Builder::new_multi_thread().worker_threads(3).enable_all().build().unwrap();
+    // class l: odd seeds run the async clients (and the recording WebSocket peer) on one worker + one blocking thread
+    let lean_runtime = args.seed % 2 == 1;
+    out.extra.insert("lean_runtime".into(), json!(lean_runtime));
+    let rt = if lean_runtime {
+        tokio::runtime::Builder::new_multi_thread().worker_threads(1).max_blocking_threads(1).enable_all().build().unwrap()
+    } else {
+        tokio::runtime::Builder::new_multi_thread().worker_threads(3).enable_all().build().unwrap()
+    };
     let mut rng = Rng::new(args.seed);
     let n_ops = if args.thorough() { 1500 } else { 160 };
     let mut idx = 0usize;
     let wait = Duration::from_secs(10);
     for client_kind in ["blocking", "async", "ws"] {
-        let ops = gen_ops(&mut rng, n_ops, client_kind);
+        let mut ops = gen_ops(&mut rng, n_ops, client_kind);
+        add_audit2_ops(&mut rng, &mut ops, args.thorough());
         let (addr, rx) = if client_kind == "ws" { ws_peer(&rt) } else { tcp_peer() };
         // issue every op; collect captured frames afterwards in order of arrival per op
         let blocking = if client_kind == "blocking" { Some(Client::connect(addr).expect("connect")) } else { None };
         let asyncc = if client_kind == "async" { Some(rt.block_on(AsyncClient::connect(addr)).expect("connect")) } else { None };
         let wsc = if client_kind == "ws" { Some(rt.block_on(repe::websocket_client::WebSocketClient::connect(&format!("ws://{}/", addr))).expect("ws connect")) } else { None };
-        for op in &ops {
+        for (op_no, op) in ops.iter().enumerate() {
+            if out.oracle_failures > 12 {
+                break;
+            }
+            // class k: the blocking client's write-timeout knob, set for the middle half of the run
+            if let Some(c) = blocking.as_ref() {
+                if op_no == ops.len() / 4 { let _ = c.set_write_timeout(Some(Duration::from_secs(5))); out.count("emit.blocking.write_timeout_set"); }
+                if op_no == 3 * ops.len() / 4 { let _ = c.set_write_timeout(None); }
+            }
             let exp = expectations(op);
             out.count(&format!("emit.entry.{}.{}", client_kind, match op {
                 Op::Formats { notify: true, .. } => "notify_with_formats", Op::Formats { .. } => "call_with_formats",
